@@ -161,12 +161,12 @@ def report(pid, violations):
                 seen.add(tag)
         else:
             unknown += 1
-            if unknown <= 20:
+            if unknown <= 6:
                 print("VIOLATION property=%s replay=%s" % (pid, v["replay"]))
-                print("  what: %s" % v.get("what", v["key"])[:600])
+                print("  what: %s" % v.get("what", v["key"])[:500])
             rc = 1
-    if unknown > 20:
-        print("  ... %d further violations not listed" % (unknown - 20))
+    if unknown > 6:
+        print("  ... %d further violations not listed" % (unknown - 6))
     return rc
 
 
